@@ -106,12 +106,12 @@ def run(res, tier, seed, driver_ok):
                 Rf = tm([0.4, -0.3, 0.2, 0.2, 0.3, -0.1])
                 for fname, got_, want_ in (('localToGlobal', fsr.localToGlobal(Rf, Xo).gTM(), Rf.gTM() @ T), ('globalToLocal', fsr.globalToLocal(Rf, Xo).gTM(), np.linalg.inv(Rf.gTM()) @ T)):
                     ang_ = math.acos(max(-1.0, min(1.0, (np.trace(want_[:3, :3]) - 1) / 2)))
-                    if ang_ < math.pi - 0.1 and np.max(np.abs(got_ - want_)) > tol * 4:
+                    if ang_ < math.pi - 0.1 and G.gt(np.max(np.abs(got_ - want_)), tol * 4):
                         bad('ctor-form-in-use:%s:%s' % (name, fname), 'a pose built by constructor form %s does not behave as that pose in %s' % (name, fname),
                             {'w': list(w), 'p': list(p), 'form': name}, {'maxdiff': G.maxdiff(got_, want_)})
             except Exception as e:
                 bad('ctor-raises:%s:%s' % (name, type(e).__name__), 'using a pose built by constructor form %s raised %r' % (name, e), {'w': list(w), 'p': list(p)}, None)
-            if np.max(np.abs(TM - T)) > tol:
+            if G.gt(np.max(np.abs(TM - T)), tol):
                 bad('ctor-form:%s' % name, 'constructor form %s does not produce the described pose' % name,
                     {'w': list(w), 'p': list(p), 'form': name, 'args': tmh.__dict__.get('x', None) or [x.tolist() if isinstance(x, np.ndarray) else x for x in op]},
                     {'got': TM.tolist(), 'want': T.tolist(), 'maxdiff': G.maxdiff(TM, T)})
@@ -121,7 +121,7 @@ def run(res, tier, seed, driver_ok):
             TM, TAA = st.state(idx)
             lines.append('tm.op ' + line); expect.append((TM, TAA, k))
             Tr = np.eye(4); Tr[:3, :3] = R
-            if np.max(np.abs(TM - Tr)) > tolfor(k, 1.0):
+            if G.gt(np.max(np.abs(TM - Tr)), tolfor(k, 1.0)):
                 bad('ctor-form:%s' % name, 'rotation-only constructor form %s wrong' % name, {'w': list(w), 'form': name}, {'got': TM.tolist(), 'maxdiff': G.maxdiff(TM, Tr)})
         # copies: tm(t), tm(array([t])), and quaternion read/set round trip
         base = st.objs[0]
@@ -129,12 +129,12 @@ def run(res, tier, seed, driver_ok):
             line, idx = st.apply(op)
             TM, TAA = st.state(idx)
             lines.append('tm.op ' + line); expect.append((TM, TAA, k))
-            if np.max(np.abs(TM - base.gTM())) > tol:
+            if G.gt(np.max(np.abs(TM - base.gTM())), tol):
                 bad('ctor-form:%s' % name, 'copy constructor form %s changes the pose' % name, {'w': list(w), 'p': list(p)}, G.maxdiff(TM, base.gTM()))
         c = base.copy()
         before = c.gTM()
         c.setQuat(c.getQuat())
-        if np.max(np.abs(c.gTM() - before)) > tol:
+        if G.gt(np.max(np.abs(c.gTM() - before)), tol):
             bad('quat-roundtrip', 'setQuat(getQuat()) changes the transform', {'w': list(w), 'p': list(p)}, G.maxdiff(c.gTM(), before))
         res.distinct.add(('pose', tuple(w), tuple(p)))
         if n < 2:
@@ -153,30 +153,30 @@ def run(res, tier, seed, driver_ok):
         res.evaluations += 1
         res.distinct.add(('triple', tuple(w1), tuple(w2), tuple(w3)))
         AB = (A @ B).gTM()
-        if np.max(np.abs(AB - TA @ TB)) > tol:
+        if G.gt(np.max(np.abs(AB - TA @ TB)), tol):
             bad('matmul', 'a @ b differs from the product of the homogeneous matrices', {'a': list(p1) + list(w1), 'b': list(p2) + list(w2)}, G.maxdiff(AB, TA @ TB))
         I = (A.inv() @ A).gTM()
-        if np.max(np.abs(I - np.eye(4))) > tol or np.max(np.abs((A @ A.inv()).gTM() - np.eye(4))) > tol:
+        if G.gt(np.max(np.abs(I - np.eye(4))), tol) or G.gt(np.max(np.abs((A @ A.inv()).gTM() - np.eye(4))), tol):
             bad('inv', 'inv() is not the group inverse', {'a': list(p1) + list(w1)}, G.maxdiff(I, np.eye(4)))
         L = ((A @ B) @ Cc).gTM(); Rr = (A @ (B @ Cc)).gTM()
-        if np.max(np.abs(L - Rr)) > tol * scale:
+        if G.gt(np.max(np.abs(L - Rr)), tol * scale):
             bad('assoc', 'composition is not associative', {'a': list(p1) + list(w1), 'b': list(p2) + list(w2), 'c': list(p3) + list(w3)}, G.maxdiff(L, Rr))
         if not near_pi(TA @ TB):          # the property's poses have angle <= pi-1e-3; products may exceed it (then C01's known log defect applies)
             l2g = fsr.localToGlobal(A, B).gTM()
             t2 = tol + (1e-6 * scale if rel_band(TA @ TB) else 0)
-            if np.max(np.abs(l2g - TA @ TB)) > t2:
+            if G.gt(np.max(np.abs(l2g - TA @ TB)), t2):
                 bad('l2g', 'localToGlobal(ref, rel) != ref*rel', {'ref': list(p1) + list(w1), 'rel': list(p2) + list(w2)}, G.maxdiff(l2g, TA @ TB))
             back = fsr.globalToLocal(A, fsr.localToGlobal(A, B)).gTM()
-            if np.max(np.abs(back - TB)) > t2 + 1e-6 * scale:
+            if G.gt(np.max(np.abs(back - TB)), t2 + 1e-6 * scale):
                 bad('l2g-g2l', 'globalToLocal(ref, localToGlobal(ref, x)) != x', {'ref': list(p1) + list(w1), 'x': list(p2) + list(w2)}, G.maxdiff(back, TB))
         iAB = np.linalg.inv(TA) @ TB
         if not near_pi(iAB):
             g2l = fsr.globalToLocal(A, B).gTM()
             t2 = tol + (1e-6 * scale if rel_band(iAB) else 0)
-            if np.max(np.abs(g2l - iAB)) > t2:
+            if G.gt(np.max(np.abs(g2l - iAB)), t2):
                 bad('g2l', 'globalToLocal(ref, x) != inv(ref)*x', {'ref': list(p1) + list(w1), 'x': list(p2) + list(w2)}, G.maxdiff(g2l, iAB))
             fwd = fsr.localToGlobal(A, fsr.globalToLocal(A, B)).gTM()
-            if np.max(np.abs(fwd - TB)) > t2 + 1e-6 * scale:
+            if G.gt(np.max(np.abs(fwd - TB)), t2 + 1e-6 * scale):
                 bad('g2l-l2g', 'localToGlobal(ref, globalToLocal(ref, x)) != x', {'ref': list(p1) + list(w1), 'x': list(p2) + list(w2)}, G.maxdiff(fwd, TB))
         if n < (3000 if thorough else 300):
             st = tmh.Store()
